@@ -170,7 +170,7 @@ class DequeModel:
         src = args[0] if args else None
         if maxlen is None and src is None:
             # an unbounded, initially empty deque used as a store: only append / len matter
-            st2, r = eng.alloc(st, "absbag", "deque", n=z3.IntVal(0))
+            st2, r = eng.alloc(st, "absbag", "deque", n=z3.IntVal(0), arity0=V.fresh_int("arity0"))
             yield st2, r
             return
         if maxlen is None or not V.is_int(maxlen):
@@ -444,8 +444,9 @@ class AbsBagModel:
 
     def make(self, eng: Any, st: State, sort: Sort, name: str) -> tuple[State, Any, list]:
         n = V.fresh_int(name + ".n")
-        st, r = eng.alloc(st, "absbag", "deque", n=n)
-        return st, r, [n >= 0]
+        a = V.fresh_int(name + ".arity0")
+        st, r = eng.alloc(st, "absbag", "deque", n=n, arity0=a)     # ghost: arity of the first stored statement
+        return st, r, [n >= 0, a >= 0]
 
     def getattr(self, eng: Any, st: State, r: Ref, attr: str, node: Any, ctx: Any):
         yield st, BuiltinMethod(r, attr)
@@ -461,6 +462,27 @@ class AbsBagModel:
             yield st.heap_set(r, "n", st.obj(r).get("n") + 1), None
             return
         raise Unsupported(f"deque.{name} on an abstract store", node)
+
+    def getitem(self, eng: Any, st: State, r: Ref, i: Any, node: Any, ctx: Any):
+        # only store[0]: some stored statement, of which only the arity (ghost `arity0` of the store) is known
+        if not (isinstance(i, int) and i == 0):
+            raise Unsupported("indexing an abstract store other than [0]", node)
+        o = st.obj(r)
+        for st1, nonempty in eng.branch(st, o.get("n") > 0, f"L{_line(node)}store[0]"):
+            if nonempty:
+                st2, it = eng.alloc(st1, "absstmt", None, n=st1.obj(r).get("arity0"))
+                yield st2, it
+            else:
+                yield st1, Raised(ExcVal("IndexError"))
+
+
+class AbsStmtModel:
+    """an element of an abstract store: only its length is known"""
+    name = "A-ABSITER element of an abstract store"
+    kind = "absstmt"
+
+    def length(self, eng: Any, st: State, r: Ref) -> Any:
+        return st.obj(r).get("n")
 
 
 class PMapModel:
@@ -525,6 +547,7 @@ def install(reg: Any = REGISTRY) -> None:
     reg.models["absiter"] = AbsIterModel()
     reg.models["absmap"] = AbsMapModel()
     reg.models["absbag"] = AbsBagModel()
+    reg.models["absstmt"] = AbsStmtModel()
     reg.models["pmap"] = PMapModel()
     reg.models["ctxvar"] = CtxVarModel()
     from .io_model import install as _io
